@@ -94,6 +94,26 @@ def parse (query : Bytes) : Params :=
       | (n, none) => some ⟨unescape n, []⟩
       | (n, some val) => some ⟨unescape n, unescape val⟩
 
+/-- the `application/x-www-form-urlencoded` parser proper: what `parseSearchQuery` does after it has dropped one
+leading `?`.  A URL's own query (which never includes the `?` delimiter) is parsed with this one. -/
+def parseBody (q : Bytes) : Params :=
+  (splitOn 38 q).filterMap fun v =>
+    if v = [] then none
+    else match splitFirst 61 v with
+      | (n, none) => some ⟨unescape n, []⟩
+      | (n, some val) => some ⟨unescape n, unescape val⟩
+
+theorem parse_eq_parseBody (q : Bytes) (h : q.head? ≠ some 63) : parse q = parseBody q := by
+  unfold parse parseBody
+  cases q with
+  | nil => simp [splitOn]
+  | cons c cs =>
+    have hc : c ≠ 63 := by simpa using h
+    simp only [List.cons_ne_nil, ↓reduceIte]
+    split
+    · next rest heq => simp at heq; exact absurd heq.1 hc
+    · rfl
+
 /-! ## mutators, with the code's loops -/
 
 def append (sp : Params) (k v : Bytes) : Params := sp ++ [⟨k, v⟩]
